@@ -136,6 +136,12 @@ def devinf_xml(inner):
                             b'<Item><Data>' + inner + b'</Data></Item></Results></SyncBody></SyncML>')
 
 
+def deep_embedded_xml(n):
+    """one (empty) embedded DevInf sub-document per nesting level: exercises the depth bookkeeping around skipped nodes"""
+    return SYNCML_DOCTYPE + (b'<SyncML xmlns="SYNCML:SYNCML1.2"><SyncBody><Results>' +
+                             b'<Item><DevInf xmlns="syncml:devinf"></DevInf>' * n + b'</Item>' * n + b'</Results></SyncBody></SyncML>')
+
+
 def xml_mutate(rng, doc):
     b = bytes(doc)
     r = rng.below(12)
